@@ -56,6 +56,7 @@ def node_strategy(safe):
         poke = st.fixed_dictionaries({
             "ent": st.integers(0, 3), "t": st.integers(0, 44), "half": st.booleans(),
             "steps": st.lists(st.integers(0, 6), max_size=0 if safe else 4),
+            "hook": st.booleans(),                  # the poke carries a completion hook that emits to the node's sink
         })
         return st.fixed_dictionaries({"n": st.integers(2, 4), "faults": st.lists(fault, max_size=5),
                                       "pokes": st.lists(poke, min_size=1, max_size=30 if tier == "thorough" else 18)})
@@ -134,10 +135,18 @@ def run_node(case, with_faults):
     sim = Simulation(entities=nodes + sinks, fault_schedule=sched)
     for h in late_cancel:
         h.cancel()
+    def hook_for(i, pid):
+        def hook(t):
+            logs[i].append(("hook", t.nanoseconds, pid))
+            return Event(time=t, event_type="out", target=sinks[i], context={"pid": 100000 + pid})
+        return hook
     for pid, p in enumerate(case["pokes"]):
         t = p["t"] * TICK + (TICK // 2 if p["half"] else 0)
-        sim.schedule(Event(time=Instant(t), event_type="poke", target=nodes[p["ent"] % n],
-                           context={"pid": pid, "steps": [max(0, int(d)) for d in p["steps"]]}))
+        ev = Event(time=Instant(t), event_type="poke", target=nodes[p["ent"] % n],
+                   context={"pid": pid, "steps": [max(0, int(d)) for d in p["steps"]]})
+        if p.get("hook"):
+            ev.add_completion_hook(hook_for(p["ent"] % n, pid))
+        sim.schedule(ev)
     SimProbe(sim, log=False).run()
     return logs, sinks_seen
 
@@ -160,7 +169,8 @@ def execute_node(obl):
             for e in range(n):
                 for (what, t, pid) in logs[e]:
                     if inside(e, t):
-                        sub = {"enter": "handler-ran", "resume": "inflight-process-advances", "emit": "emitted"}[what]
+                        sub = {"enter": "handler-ran", "resume": "inflight-process-advances", "emit": "emitted",
+                               "hook": "completion-hook-ran"}[what]
                         if what == "emit" and case["pokes"][pid]["steps"]:
                             sub = "inflight-process-advances"
                         out.append((f"{P}/{obl}/silence/{sub}", f"node{e} {what} at {t} ns (poke {pid}) inside a crash/pause window {active[e]}"))
@@ -186,7 +196,8 @@ def execute_node(obl):
         with_cancel_hypotheses(r, obl, modes, judge)
         has = any(c == 0 for ws in wins.values() for (_, _, c, _) in ws)
         r.nontrivial = has and (flags["inflight"] or obl.endswith("safe"))
-        r.labels += [l for l, c in (("inflight-at-crash", flags["inflight"]), ("has-window", has), ("cancelled-handle", bool(modes))) if c]
+        r.labels += [l for l, c in (("inflight-at-crash", flags["inflight"]), ("has-window", has), ("cancelled-handle", bool(modes)),
+                                    ("hooked-poke", any(p_.get("hook") for p_ in case["pokes"]))) if c]
         return r
     return execute
 
@@ -375,7 +386,8 @@ def cap_strategy(safe):
     def s(tier):
         win = st.fixed_dictionaries({"a": st.integers(1, 24), "len": st.integers(1, 10), "f": st.sampled_from([0.5, 0.25, 0.75]),
                                      "cancel": st.sampled_from([0, 0, 0, 0, 1, 2])})
-        w = st.fixed_dictionaries({"t": st.integers(0, 36), "amt": st.integers(1, 4), "hold": st.integers(1, 10), "half": st.booleans()})
+        w = st.fixed_dictionaries({"t": st.integers(0, 36), "amt": st.sampled_from([1, 2, 2, 3, 3, 4, 4, 6, 8]), "hold": st.integers(1, 10),
+                                   "half": st.booleans()})    # amounts above the capacity are clamped to it
         return st.fixed_dictionaries({"cap": st.sampled_from([4, 8]), "wins": st.lists(win, min_size=1, max_size=1 if safe else 3),
                                       "workers": st.lists(w, min_size=1, max_size=8), "safe": st.just(safe)})
     return s
@@ -405,12 +417,13 @@ def execute_cap(obl):
                 self.i, self.spec = i, spec
 
             def handle_event(self, event):
-                amt = self.spec["amt"]
+                amt = max(1, min(C, int(self.spec["amt"])))
                 try:
                     fut = res.acquire(amt)
                 except ValueError as e:
                     events.append((self.now.nanoseconds, "acquire-rejected", self.i, str(e)))
                     return
+                events.append((self.now.nanoseconds, "requested", self.i, amt))
                 grant = yield fut
                 held[self.i] = amt
                 events.append((self.now.nanoseconds, "granted", self.i, amt))
@@ -480,6 +493,14 @@ def execute_cap(obl):
             for (t, what, i, info) in events:
                 if what == "release-raised":
                     out.append((f"{P}/{obl}/release-raised/{cls}", f"worker {i} at {t} ns: {info}"))
+                    break
+            # back to the configured state once every window has ended: nobody is left waiting for units that are free again
+            granted = {i for (t, what, i, _) in events if what == "granted"}
+            for (t, what, i, amt) in events:
+                if what == "requested" and i not in granted and not any(b is None for (a, b, f) in live):
+                    out.append((f"{P}/{obl}/waiter-never-granted/{cls}",
+                                f"worker {i} asked for {amt} unit(s) at {t} ns and was never granted although every window ended "
+                                f"(final capacity {res.capacity}, available {res.available}); windows {wins}"))
                     break
             last = samples[-1] if samples else None
             if last and last[3] == 0 and not held and (last[1] != C or last[2] != C):
